@@ -120,7 +120,7 @@ PoolDepth3(u) == Nodes({Ty(k, 0, <<T>>) : k \in {"vec", "flist", "opt", "deq"}, 
                     \cup {Ty("tup", 0, <<A, B>>) : A \in C3, B \in {Leaf("cstr"), Arith(1)}}
                     \cup {Ty("map", 0, <<Arith(4), V>>) : V \in C3}, "red")
 \* up to CacheCap (+1) variable-length C strings in one statement (C11's quantifier; cfg sets MaxArgs)
-PoolCstr(u) == {[ty |-> Leaf("cstr"), val |-> CStr(FALSE, <<1>>)], [ty |-> Leaf("cstr"), val |-> CStr(FALSE, <<1, 1>>)]}
+PoolCstr(u) == {[ty |-> Leaf("cstr"), val |-> CStr(FALSE, <<1>>)]}
 \* (TLC evaluates zero-argument constant definitions eagerly at start-up: only the selected pool is built)
 Pool == CASE PoolName = "depth2" -> PoolDepth2(0)
           [] PoolName = "pairs" -> PoolPairs(0)
